@@ -61,12 +61,14 @@ Section SpecProofs.
               | DDefault => default_of ft
               | DConst c => deser ft c
               | DRequired => match ft with TOpt _ => Some VNone | _ => None end
+              | DStrict => None
               end = Some v.
   Proof.
     unfold optional. destruct (f_default fm).
     - destruct ft; try discriminate. eauto.
     - destruct (default_of ft); [eauto|discriminate].
     - destruct (Serde.deser valid ft c); [eauto|discriminate].
+    - discriminate.
   Qed.
 
   Theorem compat_accepts t : forall s j,
